@@ -23,12 +23,29 @@ theorem dhSums_eq (nAct : Nat) (ps : Array (Part K)) :
       ∑ i ∈ Finset.Ico 0 nAct, mOf ps i • vOf ps i, ∑ i ∈ Finset.Ico 0 nAct, mOf ps i) := by
   unfold dhSums
   rw [forRange_add 0 nAct _ (fun i => (mOf ps i • xOf ps i, mOf ps i • vOf ps i, mOf ps i))]
-  · simp only [Prod.fst_sum, Prod.snd_sum]
-    ext <;> simp [Prod.fst_sum, Prod.snd_sum]
+  · ext <;> simp [Prod.fst_sum, Prod.snd_sum]
   · intro L i _ _
     simp only [mOf, xOf, vOf]
     cases ps[i]? with
     | none => ext <;> simp
     | some p => ext <;> simp
+
+/-- with a non-zero total (active) mass: total mass × the stored centre of mass after the step
+    = Σ m x + dt Σ m v — uniform motion of the centre of mass, rejected step or not, for every
+    previous content of `com_pos` -/
+theorem part2Com_uniform (dt : K) (nAct : Nat) (rejected : Bool) (stale : V3 K) (ps : Array (Part K))
+    (hM : ∑ i ∈ Finset.Ico 0 nAct, mOf ps i ≠ 0) :
+    (∑ i ∈ Finset.Ico 0 nAct, mOf ps i) • (part2Com dt nAct rejected stale ps).pos
+      = ∑ i ∈ Finset.Ico 0 nAct, mOf ps i • xOf ps i + dt • ∑ i ∈ Finset.Ico 0 nAct, mOf ps i • vOf ps i
+    ∧ (∑ i ∈ Finset.Ico 0 nAct, mOf ps i) • (part2Com dt nAct rejected stale ps).vel
+      = ∑ i ∈ Finset.Ico 0 nAct, mOf ps i • vOf ps i := by
+  rw [part2Com_eq]
+  simp only [comStep, dhCom, dhSums_eq]
+  generalize (∑ i ∈ Finset.Ico 0 nAct, mOf ps i) = M at hM ⊢
+  generalize (∑ i ∈ Finset.Ico 0 nAct, mOf ps i • xOf ps i) = X
+  generalize (∑ i ∈ Finset.Ico 0 nAct, mOf ps i • vOf ps i) = V
+  constructor
+  · ext <;> simp <;> field_simp
+  · ext <;> simp <;> field_simp
 
 end RV.TraceCom
